@@ -226,7 +226,7 @@ fn run(ops: &[Op]) -> Result<(), (usize, String)> {
         if after.len() != before.len() {
           return fail("sweep: len_unchanged".to_string());
         }
-        let end = std::cmp::min(cursor + w, before.len());
+        let end = std::cmp::min(cursor.saturating_add(w), before.len());
         for i in 0..before.len() {
           let in_window = !gate_closed && cursor <= i && i < end;
           let ok = match (&before[i], &after[i]) {
@@ -244,7 +244,7 @@ fn run(ops: &[Op]) -> Result<(), (usize, String)> {
             ));
           }
         }
-        let want_cursor = if gate_closed { cursor } else if cursor + w >= before.len() { 0 } else { cursor + w };
+        let want_cursor = if gate_closed { cursor } else if cursor.saturating_add(w) >= before.len() { 0 } else { cursor + w };
         if h.sweep_index != want_cursor {
           return fail(format!("sweep: cursor {} want {want_cursor}", h.sweep_index));
         }
@@ -293,7 +293,7 @@ fn alphabet(n_handles: usize) -> Vec<Op> {
     v.push(Op::MakePermanent(k));
     v.push(Op::ModRef(k));
   }
-  for w in [0usize, 1, 2, 3, 1000] {
+  for w in [0usize, 1, 2, 3, 1000, usize::MAX] {
     v.push(Op::Sweep(w));
   }
   v.extend([Op::AddUnmarked, Op::PopUnmarked, Op::TempStr]);
@@ -352,7 +352,7 @@ fn verif_witness_search() {
       let r = rng.next();
       ops.push(match r % 10 {
         0..=3 => Op::Mark((r >> 8) as usize % k),
-        4..=7 => Op::Sweep([0usize, 1, 2, 3, 1000][(r >> 8) as usize % 5]),
+        4..=7 => Op::Sweep([0usize, 1, 2, 3, 1000, usize::MAX][(r >> 8) as usize % 6]),
         8 => Op::MakePermanent((r >> 8) as usize % k),
         _ => [Op::AddUnmarked, Op::PopUnmarked, Op::AllocString((r >> 8) as usize % LONG.len())][(r >> 16) as usize % 3],
       });
